@@ -15,7 +15,7 @@ INVS = ["RepsSame", "NearDifferent", "SameIffMutual", "Emit"]
 def run(res, pool, tier, seed):
     sd = seed % 1000
     if tier == "quick":
-        jobs = [dict(module="MC_Eq.tla", tag="s2", invariants=INVS, constants=dict(S=2, KINDS=set(KINDS), SEED=sd, NSHARD=2), batch=100)]
+        jobs = [dict(module="MC_Eq.tla", tag="s2", invariants=INVS, constants=dict(S=2, KINDS=set(KINDS), SEED=sd, NSHARD=1), batch=100)]
     else:
         jobs = [dict(module="MC_Eq.tla", tag="s2", invariants=INVS, constants=dict(S=2, KINDS=set(KINDS), SEED=sd, NSHARD=1), batch=100),
                 dict(module="MC_Eq.tla", tag="s8", invariants=INVS, constants=dict(S=8, KINDS=set(KINDS), SEED=sd, NSHARD=1), batch=100)]
@@ -59,7 +59,13 @@ def build_rep0(rep, pose, rng):
         rng.shuffle(fs)
         rev = {i for i in fs if rng.random() < 0.3}
         return build(o, pose, num, {"forder": fs, "rev": rev})
-    return build(o, pose, num, {"form": form})
+    rep2 = {"form": form}
+    if k in ("Line", "HalfLine", "Plane"):
+        # one more positive rescaling of the direction / normal vector (the set does not change): quarter multiples whose
+        # normalisation is not exact in binary floating point (unit components may differ by an ulp between presentations)
+        from fractions import Fraction as Fr
+        rep2["scale"] = rng.choice((1, 1, Fr(7, 4), Fr(11, 4), Fr(7, 2), Fr(1, 4), 5))
+    return build(o, pose, num, rep2)
 
 
 def replay_case(case, tag, rng, tier):
